@@ -24,15 +24,28 @@ Fixpoint mset_eqb (a b : list dfile) : bool :=
 Definition store_eqv (a b : store) : bool :=
   amap_eqv name_eqb mstate_eqb (mans a) (mans b) && amap_eqv N.eqb N.eqb (blobs a) (blobs b) && mset_eqb (debris a) (debris b).
 
-(** one step of a history: the operation, the observed result class and the observed store afterwards *)
-Record step := MkStep { st_op : op; st_res : result; st_obs : store }.
+(** what a history consists of: API operations / start-up, and (scaffolding) turning the store into one an older
+    version would have left *)
+Inductive action := AOp (o : op) | ALegacy (hs ps : list N) | AHead (d : digest).
+(* AHead: HEAD /api/blobs/:digest — GetBlobsPath maps both spellings of a digest to the file sha256-<hex>, hex case kept *)
+
+Definition act_run (size_of : N -> N) (s : store) (a : action) : store * result :=
+  match a with
+  | AOp o => let (r, res) := op_run size_of s o in (rs r, res)
+  | ALegacy hs ps => (legacy_move s hs ps, ROk)
+  | AHead d => (s, match bget (dhex d) s with Some _ => ROk | None => RNotFound end)
+  end.
+Definition act_all (size_of : N -> N) (s : store) (l : list action) : store := fold_left (fun s a => fst (act_run size_of s a)) l s.
+
+(** one step of a history: the action, the observed result class and the observed store afterwards *)
+Record step := MkStep { st_act : action; st_res : result; st_obs : store }.
 
 Fixpoint chk_steps (size_of : N -> N) (s : store) (l : list step) : bool :=
   match l with
   | [] => true
   | x :: t =>
-      let (r, res) := op_run size_of s (st_op x) in
-      result_eqb res (st_res x) && store_eqv (rs r) (st_obs x) && chk_steps size_of (rs r) t
+      let (s', res) := act_run size_of s (st_act x) in
+      result_eqb res (st_res x) && store_eqv s' (st_obs x) && chk_steps size_of s' t
   end.
 
 (** index of the first step at which model and observation differ (for the replay file) *)
@@ -40,14 +53,14 @@ Fixpoint first_bad (size_of : N -> N) (s : store) (l : list step) (i : nat) : op
   match l with
   | [] => None
   | x :: t =>
-      let (r, res) := op_run size_of s (st_op x) in
-      if result_eqb res (st_res x) && store_eqv (rs r) (st_obs x) then first_bad size_of (rs r) t (S i) else Some i
+      let (s', res) := act_run size_of s (st_act x) in
+      if result_eqb res (st_res x) && store_eqv s' (st_obs x) then first_bad size_of s' t (S i) else Some i
   end.
 
 Definition chk_history (tbl : list (N * N)) (l : list step) : bool := chk_steps (size_tbl tbl) empty_store l.
 
 (** the model store after a history (for replays) *)
-Definition model_after (tbl : list (N * N)) (ops : list op) : store := exec_all (size_tbl tbl) empty_store ops.
+Definition model_after (tbl : list (N * N)) (acts : list action) : store := act_all (size_tbl tbl) empty_store acts.
 
 (** getExistingName alone: every listed order of the stored names gives the observed answer *)
 Definition chk_get_existing (orders : list (list name)) (n : name) (obs : name) : bool :=
@@ -72,8 +85,8 @@ Definition list_store_eqv (a b : list store) : bool := list_eqb store_eqv a b.
 
 (** the sequence of distinct stores seen when the operation is killed before each of its mutating system calls
     equals the model's sequence of effect prefixes *)
-Definition chk_crash_prefixes (tbl : list (N * N)) (pre : list op) (o : op) (obs : list store) : bool :=
-  let s := exec_all (size_tbl tbl) empty_store pre in
+Definition chk_crash_prefixes (tbl : list (N * N)) (pre : list action) (o : op) (obs : list store) : bool :=
+  let s := act_all (size_tbl tbl) empty_store pre in
   list_store_eqv (dedup (prefixes_from s (effects (size_tbl tbl) s o))) (dedup obs).
 
 (** an operation group (e.g. blob upload followed by create): the effects of the group in sequence *)
@@ -83,8 +96,8 @@ Fixpoint effects_seq (size_of : N -> N) (s : store) (os : list op) : list effect
   | o :: t => effects size_of s o ++ effects_seq size_of (exec size_of s o) t
   end.
 
-Definition chk_crash_prefixes_seq (tbl : list (N * N)) (pre grp : list op) (obs : list store) : bool :=
-  let s := exec_all (size_tbl tbl) empty_store pre in
+Definition chk_crash_prefixes_seq (tbl : list (N * N)) (pre : list action) (grp : list op) (obs : list store) : bool :=
+  let s := act_all (size_tbl tbl) empty_store pre in
   list_store_eqv (dedup (prefixes_from s (effects_seq (size_tbl tbl) s grp))) (dedup obs).
 
 (** recovery (the real start-up sequence) from an observed crash store gives the model's recovery *)
